@@ -1489,14 +1489,16 @@ class Repository:
                 future.result()
 
             for file_path in referenced_paths:
+                # Whether this was the last chunk of the file must be decided under
+                # the same lock as the removal, or two threads may both see the set empty
                 with glock:
                     digests = files_digests[file_path]
                     digests.remove(digest)
-
-                if not digests:
-                    logger.info('Finished writing file %s', file_path)
-                    with glock:
+                    if finished := not digests:
                         restore_path, metadata, size = files_metadata.pop(file_path)
+
+                if finished:
+                    logger.info('Finished writing file %s', file_path)
                     # The file may have existed before and been longer
                     os.truncate(restore_path, size)
                     self.restore_metadata(restore_path, metadata)
